@@ -162,7 +162,7 @@ func init() {
 		Variants: lab.ASTVariants,
 		Chunks:   func(c *drv.Ctx) int { return c.Pick(1, 10) },
 		Opts: func(c *drv.Ctx) lab.CollectOpts {
-			return lab.CollectOpts{N: c.Pick(64, 200), Profiles: []string{"switchy", "switchy", "plain", "switchy", "backtracky", "deep"},
+			return lab.CollectOpts{N: c.Pick(128, 240), Profiles: []string{"switchy", "switchy", "plain", "switchy", "backtracky", "switchy"},
 				Inputs: c.Pick(24, 36), Hostile: false, MaxRune: true}
 		},
 		Modes: func(c *drv.Ctx, pt *Point, v lab.Variant) []proto.Mode { return []proto.Mode{memoMode} },
@@ -671,7 +671,7 @@ func init() {
 		Variants: lab.AllVariants,
 		Chunks:   func(c *drv.Ctx) int { return c.Pick(1, 8) },
 		Opts: func(c *drv.Ctx) lab.CollectOpts {
-			return lab.CollectOpts{N: c.Pick(40, 150), Profiles: []string{"plain", "liney", "switchy", "deep", "backtracky"},
+			return lab.CollectOpts{N: c.Pick(56, 150), Profiles: []string{"plain", "liney", "switchy", "deep", "backtracky"},
 				Inputs: c.Pick(12, 20), Hostile: true, Long: true, MaxRune: true}
 		},
 		Modes: func(c *drv.Ctx, pt *Point, v lab.Variant) []proto.Mode {
